@@ -86,3 +86,9 @@ TEXT["C19"] = {
     "design_ref": "DESIGN.md section 3, C19",
     "level_note": "The docker-credential-* exec runner is replaced by a function; only documented error classes are compared (entry equality; ErrHelperNotFound / helper error / failure).",
 }
+TEXT["C07"] = {
+    "technique": "property-based testing (rapid) plus a complete code x carrier grid: scripted backend errors sent through 1-3 real server->client hops; oracle = errors.Is invariance against all standard values, specification status table on every hop, JSON-equal detail, message fixed point",
+    "level_text": "A backend that answers every method with a scripted error (15 standard codes, custom codes, none; wrapped by %w and HTTP-status wrappers with any status 400-599; messages that look like rendered prefixes; JSON details) sits behind 1..3 real ociserver->ociclient hops; for every hop count up to the drawn one, every Interface method as carrier: errors.Is against each standard value must equal the answer on the original error (documented status mapping for HEAD carriers), every hop's HTTP status must be the specification's for the code or else the error's own, code and detail must be preserved, and the message after h hops must equal the message after one hop. A complete grid (17 codes x 18 carriers x bare / status-wrapped, 2 hops) runs every time.",
+    "design_ref": "DESIGN.md section 3, C07",
+    "level_note": "Sampling beyond the grid. The specification's status table is transcribed in the test (independent of errorStatuses).",
+}
